@@ -71,12 +71,20 @@ func run(prop string, rule rules.Rule, evTier, mode, repo, verif string, seed in
 	rep.Extra["program_functions"] = p.NumAll
 	rep.Extra["call_graph"] = map[string]int{"nodes": len(p.VTA.Nodes)}
 	if evTier == "thorough" {
-		rules.Thorough(c, repo, verif)
+		thorough(prop, rule, p, rep, repo, verif, seed)
 	}
 	if mode == "explain" {
 		for _, o := range rep.Obls {
 			fmt.Printf("%-9s %-22s %-60s %s  %s\n", o.Status, o.Rule, o.Construct, o.Pos, o.Detail)
 		}
 	}
-	return rep.Finish(verif, known)
+	code = rep.Finish(verif, known)
+	if mode == "keys" {
+		for _, o := range rep.Obls {
+			if o.Status != report.Holds && !o.Known {
+				fmt.Printf("KEY\t%s\t%s\t%s\n", o.Status, o.Rule, o.Construct)
+			}
+		}
+	}
+	return code
 }
